@@ -21,7 +21,7 @@ RULE = ("state = fingerprint of all mutable state a call could leave behind (eve
         "lists, input dictionaries); alphabet = the public operations of C01-C12, C16, C17, each closed over the shared pool "
         "objects (defaults left to default where the API has them); exploration: every operation from the pristine state "
         "(fresh forked process), every two-step history over the whole alphabet, every three-step history over the operations "
-        "that receive shared mutable arguments; each step's result is compared with the same operation in isolation and the "
+        "that receive shared mutable arguments (thorough: every three-step history over the whole alphabet and every four-step history over the shared-argument operations); each step's result is compared with the same operation in isolation and the "
         "fingerprint with the pristine one; states = distinct fingerprints seen, transitions = operation executions judged; "
         "non-trivial = history of length >= 2")
 ASSUMPTIONS = ["the fingerprint covers all reachable Python-level mutable state of the library and the pool; C-level state of numpy/scipy is trusted",
@@ -343,6 +343,13 @@ def shards(tier):
         out.append(("depth2", ("d2", a)))
     for a in SHARED_ARG_OPS:
         out.append(("depth3-shared-args", ("d3", a)))
+    if tier == "thorough":
+        for a in names:
+            for b in names:
+                out.append(("depth3-whole-alphabet", ("d3all", a, b)))
+        for a in SHARED_ARG_OPS:
+            for b in SHARED_ARG_OPS:
+                out.append(("depth4-shared-args", ("d4", a, b)))
     return out
 
 
@@ -361,10 +368,17 @@ def run_shard(desc):
     elif desc[0] == "d2":
         for b in names:
             judge_history([desc[1], b], res)
-    else:
+    elif desc[0] == "d3":
         for b in SHARED_ARG_OPS:
             for c in SHARED_ARG_OPS:
                 judge_history([desc[1], b, c], res)
+    elif desc[0] == "d3all":
+        for c in names:
+            judge_history([desc[1], desc[2], c], res)
+    else:
+        for c in SHARED_ARG_OPS:
+            for d_ in SHARED_ARG_OPS:
+                judge_history([desc[1], desc[2], c, d_], res)
     return res
 
 
@@ -402,7 +416,7 @@ def judge_history(ops, res):
             add_violation(res, sub, dict(case, history=list(ops[:step + 1])), "unchanged", detail,
                           "%s left mutable state behind: %s" % (name, changed[:4]), kind="mutated:" + ",".join(changed[:2]))
             return
-    bump(res["hits"], {1: "one_step", 2: "two_step_histories", 3: "three_step_shared_arg_histories"}[len(ops)])
+    bump(res["hits"], {1: "one_step", 2: "two_step_histories", 3: "three_step_shared_arg_histories", 4: "four_step_shared_arg_histories"}[len(ops)])
     if len(res["samples"]) < 2 and len(ops) == 3:
         res["samples"].append({"history": list(ops)})
 
